@@ -140,6 +140,10 @@ def operations(rng, reserved=None):
         lambda: "%s.prototype.%s.call(%s%s)" % (rng.choice(["String", "o", "f()"]), rng.choice(METHODS[:7]), rng.choice(THIS_ARGS),
                                                   rng.choice(["", ", " + rng.choice(ARG_LISTS[1:])])),
         lambda: "%s.prototype.%s.apply(%s, %s)" % (rng.choice(["String", "o"]), rng.choice(METHODS[:7]), rng.choice(THIS_ARGS), rng.choice(ARRAYS)),
+        # more arguments than apply uses (they are still evaluated), fewer than it needs
+        lambda: "%s.prototype.%s.apply(%s, %s, %s)" % (rng.choice(["String", "o"]), rng.choice(METHODS[:7]), rng.choice(THIS_ARGS), rng.choice(ARRAYS), par(o())),
+        lambda: "%s.prototype.%s.apply(%s, %s, %s, %s)" % (rng.choice(["String", "o"]), rng.choice(METHODS[:7]), rng.choice(THIS_ARGS), rng.choice(ARRAYS), par(o()), par(o())),
+        lambda: "%s.prototype.%s.call(%s, %s, %s, %s)" % (rng.choice(["String", "o"]), rng.choice(METHODS[:7]), rng.choice(THIS_ARGS), par(o()), par(o()), par(o())),
         lambda: "%s.%s.%s(%s, %s)" % (rng.choice(["''", "o", "f()", "a"]), rng.choice(METHODS[:7]), rng.choice(["call", "apply"]), rng.choice(THIS_ARGS), rng.choice(ARRAYS)),
         lambda: "aloneMethod(%s)" % rng.choice(ARG_LISTS),
         lambda: "%s[%s](%s)" % (par(rng.choice(RECEIVERS[:6])), rng.choice(["'trim'", "k", "`trim`"]), rng.choice(ARG_LISTS)),
